@@ -214,6 +214,14 @@ func (p *pump) RunEvent(time.Time) {
 			} else {
 				ok = p.forward(b, inOrder)
 			}
+		case "nokey":
+			// signed under a key name the receiver holds no secret for, with the empty key
+			if t, _, has := oracle.FindTSIG(b); has {
+				c := oracle.SignTSIG(oracle.StripTSIG(b), "nobody-has-this-key.", r.Alg, "", prior, timers, t.Time, t.Fudge)
+				ok = p.forward(c, false)
+			} else {
+				ok = p.forward(b, inOrder)
+			}
 		case "id":
 			c := append([]byte(nil), b...)
 			c[1] ^= 1
@@ -258,6 +266,8 @@ func flipPos(b []byte, region string, frac int) int {
 			lo, hi = 0, 12
 		case "id":
 			lo, hi = 0, 2
+		case "flags":
+			lo, hi = 2, 4
 		case "counts":
 			lo, hi = 4, 12
 		case "question":
